@@ -36,8 +36,15 @@ theorem decode_encode_field (n : Nat) (L : List Nat) (hL : L.Nodup) (m : FieldMe
   -- TP, None
   · subst h
     exact ⟨.vl [], by simp [encodeField], by simp [decodeField, allUnset]⟩
-  -- TP, array
-  · exact ⟨.vl xs, by simp [encodeField], by simp [decodeField, h.2]⟩
+  -- TP, array (an empty array only in a required field: the data of a trajectory without points)
+  · refine ⟨.vl xs, by simp [encodeField], ?_⟩
+    obtain ⟨_, h2⟩ := h
+    by_cases he : xs.isEmpty = true
+    · simp only [he, if_true] at h2
+      simp [decodeField, he, h2]
+    · have he' : xs.isEmpty = false := by simpa using he
+      simp only [he', Bool.false_eq_true, if_false, Bool.not_eq_true'] at h2
+      simp [decodeField, he', h2]
   -- TM, None
   · obtain ⟨hr, hb⟩ := h
     subst hr
@@ -361,6 +368,26 @@ theorem inferNpoints_isSome (vals : List (FVal ν)) (h : ∃ v ∈ vals, (points
       rcases List.mem_cons.mp hw with rfl | hw
       · simp [hp] at hws
       · exact ih ⟨w, hw, hws⟩
+
+
+/-! ### trajectories without points (repaired: `fix: a trajectory without points reads back from a NetCDF store`) -/
+
+/-- the reader as found: the (empty) per-point data of a trajectory without points read as "unset" — in every field,
+    whatever the fill value — so no field gave the point count and the load failed -/
+theorem zero_points_read_unset_pre_fix (m : FieldMeta ν) : decodePointsPreZeroFix m [] = .points none := by
+  simp [decodePointsPreZeroFix, allUnset]
+
+/-- repaired reader: a required per-point field of a zero-point trajectory round-trips, and gives the point count 0 -/
+theorem zero_points_round_trip (L : List Nat) (hL : L.Nodup) (blank : ν) (um : Option ν) :
+    (∃ c, encodeField L ⟨.TP, true, blank, um⟩ (.points (some [])) = .ok c ∧
+      decodeField L ⟨.TP, true, blank, um⟩ c = .points (some [])) ∧
+    inferNpoints [(.points (some []) : FVal ν)] = some 0 :=
+  ⟨decode_encode_field 0 L hL _ _ (by simp [fitsField]), rfl⟩
+
+/-- what the file format cannot express (outside `fits`): an *optional* per-point field holding an empty array reads back unset -/
+theorem empty_optional_points_read_unset (L : List Nat) (blank : ν) (um : Option ν) :
+    decodeField L ⟨.TP, false, blank, um⟩ (.vl []) = .points none := by
+  simp [decodeField]
 
 end codec
 
